@@ -191,7 +191,7 @@ Proof. exists st_two_vars, [""; ""; ""; ""; ""; "v=1"], [""; ""; ""; ""; "v=1"; 
    the serialised strings agree, and the item found belongs to the model handed over last *)
 Lemma multi_witness :
   let h := [MEdit 0 2 "x"; MEdit 1 2 "x"; MSetModel 0; MOp (OItem "x"); MSetModel 1; MOp (OItem "x")] in
-  let r := mrun cfg_fixed [st_one; st_one] (minit [ids5; ids5]) h in
+  let r := mrun cfg_fixed [st_one; st_one] (minit [ids5; ids5] [0; 1]) h in
   hash_string cfg_fixed st_one (nth_ids (m_ids (fst r)) 0) = hash_string cfg_fixed st_one (nth_ids (m_ids (fst r)) 1) /\
   a_owner (m_ann (fst r)) = 1 /\ a_model (m_ann (fst r)) = 1 /\
   nth 5 (snd r) RNone = REntry (Some (mk_entry "x" (vis KComp 2))).
